@@ -9,6 +9,7 @@
 import ForsysModel.Props.C09
 import ForsysModel.Props.C09wkt
 import ForsysModel.Props.C09join
+import ForsysModel.Props.C09more
 import ForsysModel.Props.C11mesh
 import ForsysModel.Props.C11merge
 import ForsysModel.Props.C15cleanup
